@@ -52,7 +52,7 @@ def recheck(ids):
             rc, out = sh(["git", "apply", f"patch_{pid}.diff"], cwd=wt)
             assert rc == 0, out
             others = [] if OWN else [p for p in old.get("checks", {}) if p != pid]
-            keep = {k: old[k] for k in ("needs_to_manifest", "rebased", "baseline_with_change") if k in old}
+            keep = {k: old[k] for k in ("needs_to_manifest", "rebased", "baseline_with_change", "first_run_own") if k in old}
             if OWN:
                 keep["_old_checks"] = {p: r for p, r in old.get("checks", {}).items() if p != pid}
             one(sid, wt, [pid] + others, keep=keep)
